@@ -80,7 +80,13 @@ def spd(n, rnd, cross=True):
     m = a @ a.T + n * np.eye(n)
     if not cross:
         m = np.diag(np.diag(m))
+    _spd_calls[0] += 1
+    if cross and n > 1 and _spd_calls[0] % 3 == 0:
+        m[0, 1] = np.nextafter(m[0, 1], np.inf)      # symmetric only up to rounding, as inv(cov) or R diag(w) R^T are
     return m
+
+
+_spd_calls = [0]
 
 
 def perturb(p, rnd, dt, dr):
